@@ -909,6 +909,29 @@ pub struct Seed {
     pub objects: BTreeMap<(u32, u16), MObj>,
 }
 
+/// One complete indirect object (`n g obj … endobj`, a stream with a direct `Length`) as bytes, in
+/// the writer's dialect at the given freedom. For scenarios that lay out a file themselves.
+pub fn object_bytes(ctx: &Ctx, freedom: usize, id: (u32, u16), o: &MObj) -> Vec<u8> {
+    let mut e = Em::new(ctx, freedom.min(2), false);
+    match o {
+        MObj::Stream(d, body) => {
+            let mut d = d.clone();
+            dict_set(&mut d, b"Length", int(body.len() as u64));
+            e.stream_obj(id, &d, body, &[], FieldKind::StreamBody);
+        }
+        _ => {
+            e.plain_obj(id, o);
+        }
+    }
+    e.out
+}
+/// A dictionary as bytes (for trailers of such files).
+pub fn dict_bytes(ctx: &Ctx, freedom: usize, d: &MDict) -> Vec<u8> {
+    let mut e = Em::new(ctx, freedom.min(2), false);
+    e.dict(d, &[]);
+    e.out
+}
+
 pub fn write_history(ctx: &Ctx, revisions: &[Revision], opts: &WriterOpts) -> Written {
     write_history_on(ctx, None, revisions, opts)
 }
